@@ -16,7 +16,7 @@ FINDER_TARGETS_QUICK = ["moon_maximum_declination_northern", "moon_maximum_decli
                         "moon_perigee_apogee_apogee", "moon_perigee_apogee_perigee"]
 FINDER_TARGETS_THOROUGH = ["moon_phase_first", "moon_phase_full", "moon_phase_last", "moon_phase_new"]
 FINDER_NAMES = ["moon_perigee_apogee", "moon_passage_nodes", "moon_maximum_declination", "moon_phase"]
-THEOREMS = (["C15_angle_reduction", "C15_mean_node", "C15_mean_perigee", "C15_node_rate", "C15_perigee_rate",
+THEOREMS = (["C15_angle_reduction", "C15_jde2000", "C15_mean_node", "C15_mean_perigee", "C15_node_rate", "C15_perigee_rate",
              "C15_illuminated_fraction", "C15_finder_index", "C15_finder_spacing"]
             + ["C15_" + t for t in FINDER_TARGETS_QUICK] + ["C15_%s_refusals" % f for f in FINDER_NAMES]
             + ["C15_finder_timing"])
@@ -46,7 +46,7 @@ EXPLANATION = ("Ideal-instance theorems on the generated Moon/Angle model: argum
                "search oracle on the implementation; every anchored function is compared bit for bit with its model.")
 CLAUSES = {
     "parallax = asin(6378.14/Delta)": "unproved (searched to 1e-9 deg at every sampled instant + bit-exact correspondence of geocentric_ecliptical_pos): symbolic evaluation of the two 60-row table loops did not fit the memory budget",
-    "illuminated fraction in [0,1] and of the form (1+cos i)/2": "proved [ideal, closed form of illuminated_fraction_disk, premise J2000]; agreement with the Sun-Earth-Moon geometry (0.01): unproved (searched)",
+    "illuminated fraction in [0,1] and of the form (1+cos i)/2": "proved [ideal, closed form of illuminated_fraction_disk; JDE2000 = 2451545 proved (C15_jde2000)]; agreement with the Sun-Earth-Moon geometry (0.01): unproved (searched)",
     "node/perigee longitudes move at their secular rates": "proved [ideal: explicit polynomials in T; linear coefficients -1934.1362891 / +4069.0137287 deg/century; higher-order part <= 8.2 / 40.6 deg on |T|<=60 by interval]; true node: searched (within 1.97 deg of the mean node)",
     "reduction of large arguments": "proved [ideal, every real x]: Angle(Angle.reduce_deg(x)).to_positive() = x mod 360 in [0,360)",
     "distance 356000-407000 km, |latitude| <= 5.35 deg": "unproved (searched)",
@@ -61,7 +61,7 @@ CLAUSES = {
     "totality on every calendar day, both calendars, leap days of Julian century years": "unproved (searched: every day of the sample years incl. 1582 and Julian century years; 29 Feb / 1 Mar / 31 Dec of 12 Julian century years)",
 }
 
-PROOF_FILES = ["C15_angle.v", "C15_tac.v", "C15_nodes.v", "C15_illum.v"]
+PROOF_FILES = ["C15_angle.v", "C15_tac.v", "C15_j2000.v", "C15_nodes.v", "C15_illum.v"]
 
 
 def proof_files(tier):
